@@ -216,32 +216,45 @@ def run(ctx):
                     'impl_index': canon(json.loads(metas[-1][2]))})
 
 
-def run_buildindex(ctx):
-    """The same through MibCompiler.buildIndex with a real FileWriter (read-back of the old index)."""
+def build_sequence(builds, on_step=None):
+    """builds: [(compiler number, module summaries)…] against one destination directory, each compiler object with its own
+    FileWriter; returns the list of failures of the oracle (each step judged against the index file as it was before it)"""
     from pysmi.compiler import MibCompiler, MibStatus
     from pysmi.codegen.jsondoc import JsonCodeGen
     from pysmi.writer.localfile import FileWriter
-    from pysmi.parser.smi import parserFactory
     d = scratch_dir()
+    fails = []
     try:
-        comp = MibCompiler(None, JsonCodeGen(), FileWriter(d).setOptions(suffix='.json'))
+        comps = {}
         prev = None
-        for i in range(6):
-            mods = gen_case(ctx.rng, ctx.tier)
+        for who, mods in builds:
+            if who not in comps:
+                comps[who] = MibCompiler(None, JsonCodeGen(), FileWriter(d).setOptions(suffix='.json'))
             processed = {m['name']: MibStatus('compiled').setOptions(
                 identity=m['identity'], enterprise=m['enterprise'], compliance=m['compliance'], oids=m['oids'])
                 for m in mods}
-            comp.buildIndex(processed)
+            comps[who].buildIndex(processed)
             with open(os.path.join(d, 'index.json')) as f:
                 text = f.read()
-            fails = oracle(mods, prev, text)
-            for fl in fails[:3]:
-                ctx.res.oracle_failures.append({'key': fl.split(':')[0], 'what': 'buildIndex: ' + fl,
-                                                'input': {'mods': mods, 'old': prev}})
-            ctx.res.count('buildIndex_steps')
+            fails += oracle(mods, prev, text)
+            if on_step:
+                on_step()
             prev = text
     finally:
         shutil.rmtree(d, ignore_errors=True)
+    return fails
+
+
+def run_buildindex(ctx):
+    """The same through MibCompiler.buildIndex with a real FileWriter (read-back of the old index): one compiler, and two
+    or three compiler objects taking turns on the same destination directory."""
+    for k in range(1 if ctx.tier == 'quick' else 20):
+        for n_comp in (1, 2, 3):
+            builds = [(ctx.rng.randrange(n_comp), gen_case(ctx.rng, ctx.tier)) for _ in range(6)]
+            fails = build_sequence(builds, on_step=lambda: ctx.res.count('buildIndex_steps'))
+            for fl in fails[:3]:
+                ctx.res.oracle_failures.append({'key': fl.split(':')[0], 'what': 'buildIndex (%d compiler objects taking turns): %s' % (n_comp, fl),
+                                                'input': {'builds': builds}})
 
 
 def search(ctx):
@@ -265,6 +278,12 @@ def search(ctx):
 
 def replay(payload):
     inp = payload['input']
+    if 'builds' in inp:
+        fails = build_sequence([tuple(b) for b in inp['builds']])
+        key = payload.get('key')
+        if key:
+            fails = [f for f in fails if f.split(':')[0] == key]
+        return {'fails': bool(fails), 'what': fails[:5]}
     new_text = impl_index(inp['mods'], inp.get('old'))
     fails = oracle(inp['mods'], inp.get('old'), new_text)
     again = impl_index(inp['mods'], new_text)
